@@ -107,10 +107,21 @@ def run(rep, pool, driver, tier):
         for per in sorted({2, 3, len(es), len(es) - 1 if len(es) > 3 else 2, 10000000}):
             for m in (['ndl_openmp'] if quick and i % 2 else ['ndl_threading', 'ndl_openmp']):
                 cases.append((dict(base, per_file=per), m))
+    # >= 11 chunk files inside ndl.ndl itself: the learner must take them in numeric, not lexicographic order
+    for i in range(4 if quick else 40):
+        n = r.randint(22, 45)
+        es = gen.events(r, n, dup=0.0, late=True)
+        base = dict(gen.params(r), events=es, policy='error', n_jobs=r.choice([1, 2, 4]), per_job=r.choice([1, 3, 10]), stream='ndl_many_chunks')
+        for per in sorted({2, 3, (n + 10) // 11, n // 11}):
+            if per >= 2 and (n + per - 1) // per >= 11:
+                m = ['ndl_threading', 'ndl_openmp'][(i + per) % 2] if quick else None
+                for mm in ([m] if m else ['ndl_threading', 'ndl_openmp']):
+                    cases.append((dict(base, per_file=per), mm))
     impls = pool.map([L.impl_task(c, m) for c, m in cases])
     models = driver.ask([L.model_request(c, m) for c, m in cases])
     for (c, m), impl, model in zip(cases, impls, models):
-        rep.case({'events': c['events'], 'per_file': c['per_file'], 'm': m}, nontrivial=True, stream='ndl_chunk_size')
+        rep.case({'events': c['events'], 'per_file': c['per_file'], 'm': m}, nontrivial=True, stream=c['stream'])
+        rep.count('ndl_chunks:%s' % ('>=11' if (len(c['events']) + c['per_file'] - 1) // c['per_file'] >= 11 else '<11'))
         d = L.compare(impl, model)
         if d is not None:
             rep.violation({'what': d, 'learner': m, 'input': c, 'python': L.python_snippet(c, m),
